@@ -27,7 +27,7 @@ CHECKS = {
              "the standard library's FloatAxioms / Uint63 axioms about primitive floats and integers are trusted), conditioned tolerance 1e-9 (sum|terms|+1) for the Gaussian costs; multivariate p >= 2: linear algebra is modelled as oracles, only differential testing against np.linalg.",
         ref="DESIGN.md section 4 / C01"),
     "C06": dict(
-        technique="Coq proof over Reals (cost-difference adapters for any cost; CUSUM^2 = L2 change score; optimal <= fixed; split inequalities via ln u <= u - 1; sub-additivity of savings) on regenerated kernels; Coq/Flocq rounding-error bound and primitive-float refinement for the CUSUM score; exact integer adapter correspondence",
+        technique="Coq proof over Reals (cost-difference adapters for any cost; CUSUM^2 = L2 change score; optimal <= fixed; split inequalities via ln u <= u - 1; sub-additivity of savings) on regenerated kernels; Coq/Flocq rounding-error bounds and primitive-float refinement for the CUSUM score and the L2 saving (bit-exact twins); exact integer adapter correspondence",
         text="Theorems in coq/Properties/C06.v: for ANY cost function the adapter models give C(s,e) - C(s,k) - C(k,e), C_fixed - C_optimal and C(s,e) - C(a,b) - C(pooled), non-negative "
              "whenever the split inequality / optimal <= fixed holds; for the kernels regenerated from /repo: the squared CUSUM equals the squared-error change score, the L2 saving "
              "equals the saving of the squared-error cost with baseline mean 0, the optimal-parameter cost never exceeds the fixed-parameter cost (L2; Gaussian variance above the "
@@ -38,7 +38,7 @@ CHECKS = {
         note=BASE_TB + RT + "translator trusted and validated; binary64 rounding outside the theorems; multivariate Gaussian optimal<=fixed / split inequality unproved.",
         ref="DESIGN.md section 4 / C06"),
     "C02": dict(
-        technique="Coq proof (induction/invariants over the PELT loop, unbounded n; over Z and over the reals, end-to-end for the built-in squared-error and Gaussian costs) + model-vs-code correspondence with a verified checker on integer tables and bit-exact on binary64 tables",
+        technique="Coq proof (induction/invariants over the PELT loop, unbounded n; over Z and over the reals, end-to-end for the built-in squared-error and Gaussian costs; near-optimality within 3 n eps under inexact arithmetic and, via Flocq, for the binary64 run itself, end-to-end from float data for the squared-error cost) + model-vs-code correspondence with a verified checker on integer tables and bit-exact on binary64 tables and from binary64 data, theorem premises evaluated on every float case",
         text="Theorems in coq/Properties/C02.v: for ANY cost function satisfying the split inequality, any n >= 2m, pen >= 0, the model of "
              "run_pelt returns an admissible segmentation minimising the penalised cost over all admissible segmentations, every prefix score is "
              "the optimal value F(t) (F proved equal to the min over segmentations), final score = cost of the output; refutation of the "
@@ -53,7 +53,7 @@ CHECKS = {
              "outside the optimality theorem (costs enter as exact values); the binary64 stream ties the loop, not the optimality.",
         ref="DESIGN.md section 4 / C02"),
     "C03": dict(
-        technique="Coq proof (DP invariants with delayed pruning, best-subset exchange lemma; unbounded n, p; over Z and over the reals, end-to-end for the built-in L2 saving) + model-vs-code correspondence with a verified checker on integer tables, bit-exact on binary64 savings (generic dynamic programme on primitive floats) and against an exact-rational optimum",
+        technique="Coq proof (DP invariants with delayed pruning, best-subset exchange lemma; unbounded n, p; over Z and over the reals, end-to-end for the built-in L2 saving; near-optimality within 3 n eps under inexact arithmetic and, via Flocq, for the binary64 run itself, end-to-end from float data for univariate CAPA with the L2 saving) + model-vs-code correspondence with a verified checker on integer tables, bit-exact on binary64 savings and from binary64 data (generic dynamic programme on primitive floats, theorem premises evaluated on every float case) and against an exact-rational optimum",
         text="Theorems in coq/Properties/C03.v: for ANY per-column savings that are non-negative and sub-additive, non-negative penalties, 2 <= m <= M, "
              "the model of run_base_capa returns a valid anomaly set maximising the total penalised saving over all valid sets; each prefix score equals the "
              "optimum G(t) w.r.t. the true best-subset penalised saving (Pbest proved = max over non-empty component sets); re-evaluation = final score; "
